@@ -119,6 +119,9 @@ func solveBatches(obls []*Obligation, opt solveOpts) {
 	}
 	groups := map[key][]*Obligation{}
 	var order []key
+	if os.Getenv("GOVC_NOBATCH") != "" {
+		return
+	}
 	for _, o := range obls {
 		if o.Batch == 0 || o.Cover || o.Result != "" {
 			continue
@@ -180,15 +183,69 @@ func solveBatches(obls []*Obligation, opt solveOpts) {
 	wg.Wait()
 }
 
+// solveCovers: reachability guards. One reachable instance per (function, label) suffices, so the instances of a
+// label are tried in turn until one is not refuted; the rest are skipped.
+func solveCovers(obls []*Obligation, opt solveOpts) {
+	type key struct{ fn, label string }
+	groups := map[key][]*Obligation{}
+	var order []key
+	for _, o := range obls {
+		if !o.Cover || o.Result != "" {
+			continue
+		}
+		k := key{o.Fn, o.Label}
+		if _, ok := groups[k]; !ok {
+			order = append(order, k)
+		}
+		groups[k] = append(groups[k], o)
+	}
+	ch := make(chan []*Obligation)
+	var wg sync.WaitGroup
+	n := opt.jobs
+	if n <= 0 {
+		n = 16
+	}
+	for w := 0; w < n; w++ {
+		wg.Add(1)
+		go func() {
+			defer wg.Done()
+			for g := range ch {
+				reached := false
+				for _, o := range g {
+					if reached {
+						o.Result, o.Backend = "skipped", "none"
+						continue
+					}
+					t0 := time.Now()
+					r, out, _ := runSolver(solvers[0], queryText(*o.Prelude, o, false), 2, opt.seed)
+					o.Result, o.Output, o.Seconds, o.Backend = r, out, time.Since(t0).Seconds(), solvers[0].name
+					if r != "unsat" {
+						reached = true
+					}
+				}
+			}
+		}()
+	}
+	for _, k := range order {
+		ch <- groups[k]
+	}
+	close(ch)
+	wg.Wait()
+}
+
 func solvePool(obls []*Obligation, opt solveOpts) {
 	type job struct {
 		text string
 		obls []*Obligation
 	}
 	solveBatches(obls, opt)
+	solveCovers(obls, opt)
 	byHash := map[[32]byte]*job{}
 	var jobs []*job
 	for _, o := range obls {
+		if o.Cover && o.Result != "" {
+			continue
+		}
 		if o.Result == "unsat" && o.Batch != 0 {
 			continue // discharged as part of its batch
 		}
